@@ -33,7 +33,7 @@ Definition bytes_of_cid (k : cid) : bytes := bytes_of_cid_aux (S (N.to_nat (N.si
 Definition opt_tok {A} (f : string -> option A) (s : string) : option (option A) :=
   if String.eqb s "~" then Some None else option_map Some (f s).
 
-Definition parse_msg (f : list string) : option dmsg :=
+Definition parse_msg9 (f : list string) : option dmsg :=
   match f with
   | [ch; xid; ci; k; rq; sd; b; src; prl] =>
       match N_of_hex ch, N_of_hex xid, N_of_hex ci,
@@ -44,6 +44,19 @@ Definition parse_msg (f : list string) : option dmsg :=
       | _, _, _, _, _, _, _, _, _ => None
       end
   | _ => None
+  end.
+
+(* a 10th field carries further client options as raw code/length/value bytes (requested lease
+   time 51, maximum message size 57, host name 12, vendor class 60, ...): the server ignores them
+   (the host name only names the lease), so the model checks the hex and drops them *)
+Definition parse_msg (f : list string) : option dmsg :=
+  match f with
+  | [ch; xid; ci; k; rq; sd; b; src; prl; extra] =>
+      match bytes_of_tok extra with
+      | Some _ => parse_msg9 [ch; xid; ci; k; rq; sd; b; src; prl]
+      | None => None
+      end
+  | _ => parse_msg9 f
   end.
 
 Definition parse_op (s : string) : option op :=
